@@ -7,11 +7,11 @@ SPEC = {
     'design_ref': 'DESIGN.md §6 C05, §7.3, §8 F8',
     'assumptions': [
         'LevelDB write batches are atomic and durable (as C04)',
-        'Flushed of the state a back-out starts from (what backup_block asserts, plus: UTXO state record = in-memory state, tx_counts = committed file prefix, history table with unique keys / ascending histories / no row above the UTXO flush count, history flush count not behind the UTXO one, reorg limit > 0)',
+        'FlushedB of the state a back-out starts from (what backup_block asserts, plus: UTXO state record = in-memory state, tx_counts = committed file prefix, history table with unique keys / ascending histories / no row above the UTXO flush count, history flush count not behind the UTXO one, reorg limit > 0)',
         'KNOWN FINDING F8: for the cut between History.backup\'s batch and the UTXO batch of flush_backup with the daemon back on (or never having left) the old branch the property is false of the code; the proved statement and the suppression predicate exclude exactly that family',
         'catching up after the restart (re-detection of the fork by the sync loop) is validated on the real code by driving backup_block/advance_block directly, not through fetch_and_process_blocks',
     ],
-    'level_text': 'proof (partial) + machine-checked counterexample: flush_backup has exactly two atomic effects (history batch, UTXO batch); cuts before the first and after the second are the clean pre/post stores (proved); for the cut between them, backing the block out again after the restart (daemon on a chain without that block) performs the same UTXO batch and leaves every history as the uninterrupted back-out does (proved for all states satisfying Flushed, all blocks); with the daemon on the old branch / chain unchanged the restarted index keeps height N with block N\'s history entries missing for good (F8: proved counterexample in the model, reproduced on the real code on every run).',
+    'level_text': 'proof (partial) + machine-checked counterexample: flush_backup has exactly two atomic effects (history batch, UTXO batch); cuts before the first and after the second are the clean pre/post stores (proved); for the cut between them, backing the block out again after the restart (daemon on a chain without that block) performs the same UTXO batch and leaves every history as the uninterrupted back-out does (proved for all states satisfying FlushedB, all blocks); with the daemon on the old branch / chain unchanged the restarted index keeps height N with block N\'s history entries missing for good (F8: proved counterexample in the model, reproduced on the real code on every run).',
     'level_note': 'trusted: Lean kernel + 3 axioms; model/code tie by suite crash entry run_backup (every cut of every flush_backup x 3 continuations on the real code); LevelDB batch atomicity',
     'technique': 'Lean 4 theorems (simulation of backup_block\'s loops on the restarted state, idempotence of History.backup) + machine-checked counterexample + exhaustive crash injection into the real code',
 }
